@@ -7,7 +7,7 @@ use crate::world::*;
 /// Colliding start forests (DESIGN §2.6): text-element-text sandwiches, attribute and namespace nodes,
 /// nested elements (cycles), a second tree, unattached nodes of every kind.
 pub fn starts() -> Vec<Start> {
-    let s = |name: &str, forest: Vec<A>| Start { name: name.into(), forest, adjacent_text: false, consolidation: true };
+    let s = |name: &str, forest: Vec<A>| Start { name: name.into(), forest, adjacent_text: false, consolidation: true , parse: vec![]};
     vec![
         s(
             "sandwich+attrs",
@@ -17,6 +17,7 @@ pub fn starts() -> Vec<Start> {
         s("unattached-element+attr+ns", vec![A::el("", "a").attr("", "k", "1").child(A::text("x")).child(A::el("", "b")).child(A::text("y")), A::attr_node("", "k", "2"), A::ns_node("p", Y), A::attr_node(X, "l", "3")]),
         s("two-documents", vec![A::doc(vec![A::el("", "a").child(A::el("", "b"))]), A::doc(vec![A::el("", "c").attr(X, "l", "1").decl("p", X).child(A::text("t"))])]),
         s("fragment-text-first-last", vec![A::doc(vec![A::text("x"), A::el("", "a"), A::text("y")]), A::comment("c"), A::pi("pi", None)]),
+        Start { name: "parsed-with-xml-ids".into(), forest: vec![A::el("", "e").child(A::text("t"))], adjacent_text: false, consolidation: true, parse: vec![1] },
         s("single-text-child", vec![A::doc(vec![A::el("", "a").child(A::text("x")).child(A::el("", "b").child(A::text("y")))]), A::el("", "e"), A::text(" ")]),
     ]
 }
